@@ -61,6 +61,42 @@ def idxNegE {α} (xs : List α) (c : Nat) (site : String) : Except Err α :=
 def setIdxNegE {α} (xs : List α) (c : Nat) (v : α) (site : String) : Except Err (List α) :=
   if c ≤ xs.length then setE xs (xs.length - c) v site else .error (.oob site)
 
+/-- `xs[i]` with numpy's WRAP-AROUND of a negative index: `-len ≤ i < 0` is `xs[len + i]` (whitelist type `arr2w`; the one
+    kernel that relies on it is `fast_csv_reader`, which reads `column_inds[col_index, -1]` while on the header line) -/
+def idxWE {α} (xs : List α) (i : Int) (site : String) : Except Err α :=
+  if 0 ≤ i then getE xs i.toNat site
+  else if -i ≤ (xs.length : Int) then getE xs (xs.length - (-i).toNat) site else .error (.oob site)
+
+/-- `xs[i] = v` with the same wrap-around -/
+def setIdxWE {α} (xs : List α) (i : Int) (v : α) (site : String) : Except Err (List α) :=
+  if 0 ≤ i then setE xs i.toNat v site
+  else if -i ≤ (xs.length : Int) then setE xs (xs.length - (-i).toNat) v site else .error (.oob site)
+
+/-- `a[i, j] = v` on a 2-D array given as the list of its rows: row `i`, then entry `j`, both checked -/
+def setIdx2E {α} (a : List (List α)) (i j : Int) (v : α) (site : String) : Except Err (List (List α)) :=
+  match idxE a i site with
+  | .error e => .error e
+  | .ok row =>
+    match setIdxE row j v site with
+    | .error e => .error e
+    | .ok row' => setIdxE a i row' site
+
+/-- `a[i, j] = v` with numpy's wrap-around of a negative index in both dimensions (`arr2w`) -/
+def setIdx2WE {α} (a : List (List α)) (i j : Int) (v : α) (site : String) : Except Err (List (List α)) :=
+  match idxWE a i site with
+  | .error e => .error e
+  | .ok row =>
+    match setIdxWE row j v site with
+    | .error e => .error e
+    | .ok row' => setIdxWE a i row' site
+
+/-- `a.shape[1]` of a 2-D array given as the list of its rows: the length of its rows.  An array WITHOUT rows does not carry
+    its second dimension in this representation: an (IndexError-class) error, never a guess -/
+def shape1E {α} (a : List (List α)) (site : String) : Except Err Int :=
+  match a with
+  | [] => .error (.oob site)
+  | r :: _ => .ok (r.length : Int)
+
 /-- read of a local that Python may not have bound yet (`UnboundLocalError`); `d` is the definedness flag -/
 def readDefE {α} (d : Bool) (v : α) (_name : String) : Except Err α :=
   if d then .ok v else .error (.other "UnboundLocalError")
